@@ -5,7 +5,7 @@ From TV Require Import Base.Prelude Base.Utf8 Base.Winnow Gen.Consts.
 From TV Require Import Model.Trivia Model.Strings Model.Datetime Model.DatetimeStd Spec.DatetimeSpec Model.Numbers Model.Tree Model.Parse Model.Document.
 From TV Require Import Model.Write Model.Encode Model.Build.
 From TV Require Import Proofs.StringsRTDefs Proofs.StringsRTBase Proofs.StringsRTTop.
-From TV Require Import Proofs.BuiltRTBase Proofs.BuiltRTEncode Proofs.BuiltRTParse Proofs.BuiltRTKey Proofs.BuiltRTValue Proofs.BuiltRTLeaf Proofs.BuiltRTDatetime.
+From TV Require Import Proofs.BuiltRTBase Proofs.BuiltRTEncode Proofs.BuiltRTParse Proofs.BuiltRTKey Proofs.BuiltRTValue Proofs.BuiltRTLeaf Proofs.BuiltRTDatetime Proofs.BuiltRTWF.
 Require Import Lia ZifyBool ZifyN ZifyNat.
 
 (* ---- the admissible leaves -------------------------------------------------------------------------------- *)
@@ -135,4 +135,14 @@ Proof.
   assert (Ev : value_ (mkIn (txt float_text v) 0%N 0) = Ok v' (mkIn [] p' 0)).
   { unfold value_. cbn [rest]. rewrite app_nil_r in E. exact E. }
   rewrite (bind_ok _ _ _ _ _ Ev). reflexivity.
+Qed.
+
+(* ... in particular for everything the value constructors assemble *)
+Theorem constructed_value_roundtrip c :
+  cval_ok scalar_ok key_ok c -> value_depth (eval_value c) < LIMIT ->
+  exists v', parse_value_raw (display_value (render_value float_text (eval_value c))) = POk v'
+             /\ abs_value v' = abs_value (eval_value c).
+Proof.
+  intros Hc Hd. destruct (eval_value_built scalar_ok key_ok c Hc) as [Hb Hdec].
+  apply built_value_roundtrip; [exact Hb|exact Hd|]. unfold top_plain. rewrite Hdec. reflexivity.
 Qed.
